@@ -64,7 +64,7 @@ def keyspace_oracle(T, E, replay_base, dist):
                 kind = "misses-length-eq-ngram+zero-remainder"
             else:
                 kind = "mismatch"
-            ex = (by_len + zero_rem + sorted(distinct))[:3]
+            ex = list(dict.fromkeys(by_len + zero_rem + sorted(distinct)))[:3]
             vio.append({"sig": "C18:keyspace-" + kind,
                         "what": "level %d: omen_keyspace.txt says %d, the MarkovCracker emits %d distinct strings "
                                 "(%d of length = ngram = %d, %d whose IP level already is the whole level), e.g. %r; ngram %d, "
@@ -168,8 +168,8 @@ def explore(ctx, cfg, sc_dir, idx, budget, dist):
 def run(ctx):
     import extract_consts
     consts = extract_consts.main()
-    n = ctx.scale(60, 800)
-    budget = {"cap": ctx.scale(6000, 40000), "per_level": ctx.scale(0.3, 1.5), "per_model": ctx.scale(0.8, 5.0)}
+    n = ctx.scale(60, 1500)
+    budget = {"cap": ctx.scale(6000, 30000), "per_level": ctx.scale(0.3, 0.6), "per_model": ctx.scale(0.8, 1.2)}
     sc_dir = common.scratch()
     vio, samples, cases, case_cfg = [], [], [], []
     dist = {"models": 0, "unusable_lists": 0, "kinds": {}, "ngram": {}, "levels_listed": 0, "levels_compared": 0,
@@ -275,7 +275,7 @@ def check_one(cfg, level, max_keyspace, budget):
     return vio
 
 
-def shrink_all(ctx, vio, seconds_each=3.0, max_sigs=5):
+def shrink_all(ctx, vio, seconds_each=2.0, max_sigs=4):
     by = {}
     for v in vio:
         tr = (v.get("replay") or {}).get("training")
